@@ -153,6 +153,11 @@ void cloneCheck(NifFile& src, NiShape* srcShape, NifFile& dst, bool sameModel, c
 		std::string err, cls;
 		long blocks = 0;
 		if (bs.type != bd.type) { R_viol("clone", "type/" + vclass, w + ": source is a " + bs.type + ", clone a " + bd.type); return; }
+		{
+			// the destination header has to call the clone what the source header calls the source (the type table is what a reader trusts)
+			std::string hs = gs.headerTypes[gs.index.at(srcShape)], hd = gd.headerTypes[gd.index.at(c)];
+			if (hs != hd) { R_viol("clone", "header-type/" + hs, w + ": the source header calls the shape " + hs + ", the destination header calls the clone " + hd); return; }
+		}
 		if (bs.slotIndex.size() != bd.slotIndex.size()) { R_viol("clone", "slot-count/" + bs.type, w + fmt(": shape has %zu reference slots, clone %zu", bs.slotIndex.size(), bd.slotIndex.size())); return; }
 		for (size_t k = 0; k < bs.slotIndex.size(); k++) {
 			NiObject* ta = bs.slotTarget[k];
@@ -280,8 +285,8 @@ void init() {
 		if (m.ok) g_models.push_back({"api:" + m.desc, m.bytes});
 	}
 	// synthesised shapes with populated children (properties, controllers, extra data, collision)
-	static const char* GEO[] = {"NiTriShape", "NiTriStrips", "BSTriShape", "BSSubIndexTriShape", "BSLODTriShape", "BSSegmentedTriShape", "NiParticles", "BSDynamicTriShape"};
-	for (int g = 0; g < 8; g++)
+	static const char* GEO[] = {"NiTriShape", "NiTriStrips", "BSTriShape", "BSSubIndexTriShape", "BSLODTriShape", "BSSegmentedTriShape", "NiParticles", "BSDynamicTriShape", "BSMeshLODTriShape", "NiLines", "NiScreenElements"};
+	for (int g = 0; g < 11; g++)
 		for (int vi = 0; vi < NVERS; vi++)
 			for (int k = 0; k < p.synPer; k++) {
 				if (!admissible(GEO[g], VERS[vi])) continue;
